@@ -32,16 +32,18 @@ def iflatten(iterable):
     if not isinstance(iterable, (list, tuple)):
         yield iterable
         return
-    remainder = iter(iterable)
-    while True:
-        try:
-            first = next(remainder)
-        except StopIteration:
-            return
-        if isinstance(first, (list, tuple)):
-            remainder = itertools.chain(first, remainder)
+    # an explicit stack of iterators: chaining each nested list in front of the
+    # remainder nests one chain per row, which makes a long column of one-cell
+    # rows quadratic and, from a few hundred thousand rows on, overflows the C stack
+    stack = [iter(iterable)]
+    while stack:
+        for item in stack[-1]:
+            if isinstance(item, (list, tuple)):
+                stack.append(iter(item))
+                break
+            yield item
         else:
-            yield first
+            stack.pop()
 
 
 def flatten(l):
